@@ -146,13 +146,84 @@ class SymStr:
             return mkbytes(out)
         raise Unsupported("SymStr.encode(%r)" % encoding)
 
+    def _find(self, sep):
+        c = _cps_of(sep)
+        if c is None:
+            raise TypeError("must be str")
+        if len(c) != 1:
+            raise Unsupported("SymStr search for a separator of %d characters" % len(c))
+        for i, ch in enumerate(self._cps):
+            if ch == c[0]:          # forks on a symbolic character
+                return i
+        return -1
+
+    def partition(self, sep):
+        i = self._find(sep)
+        if i < 0:
+            return (self, "", "")
+        return (mkstr(self._cps[:i]), sep, mkstr(self._cps[i + 1:]))
+
+    def rpartition(self, sep):
+        c = _cps_of(sep)
+        if c is None or len(c) != 1:
+            raise Unsupported("SymStr.rpartition")
+        for i in range(len(self._cps) - 1, -1, -1):
+            if self._cps[i] == c[0]:
+                return (mkstr(self._cps[:i]), sep, mkstr(self._cps[i + 1:]))
+        return ("", "", self)
+
+    def find(self, sub, *a):
+        if a:
+            raise Unsupported("SymStr.find with bounds")
+        return self._find(sub)
+
+    def index(self, sub, *a):
+        i = self.find(sub, *a)
+        if i < 0:
+            raise ValueError("substring not found")
+        return i
+
+    def startswith(self, prefix):
+        c = _cps_of(prefix)
+        if c is None:
+            raise Unsupported("SymStr.startswith(tuple)")
+        return len(c) <= len(self._cps) and bool(mkstr(self._cps[:len(c)]) == prefix)
+
+    def endswith(self, suffix):
+        c = _cps_of(suffix)
+        if c is None:
+            raise Unsupported("SymStr.endswith(tuple)")
+        return len(c) <= len(self._cps) and bool(mkstr(self._cps[len(self._cps) - len(c):]) == suffix)
+
+    def lstrip(self, chars=None):
+        if chars is None:
+            raise Unsupported("SymStr.lstrip() of whitespace")
+        cs = [ord(c) for c in chars]
+        cps = list(self._cps)
+        while cps:
+            hit = False
+            for c in cs:
+                if cps[0] == c:
+                    hit = True
+                    break
+            if not hit:
+                break
+            cps.pop(0)
+        return mkstr(cps)
+
     def lower(self):
         raise Unsupported("SymStr.lower")
 
     upper = lower
-    strip = lower
     split = lower
     replace = lower
+    casefold = lower
+
+    def strip(self, chars=None):
+        if chars is None:
+            raise Unsupported("SymStr.strip() of whitespace")
+        r = self.rstrip(chars)
+        return r.lstrip(chars) if isinstance(r, SymStr) else r.lstrip(chars)
 
 
 def decode(items, encoding="utf-8", errors="strict"):
